@@ -10,7 +10,7 @@ from .tourops import mval, F
 
 PROPERTY = 'C14'
 CRATES = ['rapid_time', 'model', 'solution', 'solver']
-MIR = [('rapid_time', 'on'), ('model', 'on'), ('solution', 'on'), ('solver', 'on')]
+MIR = [('rapid_time', 'on'), ('model', 'on'), ('solution', 'on'), ('solver', 'on'), ('rapid_time', 'off'), ('model', 'off'), ('solution', 'off'), ('solver', 'off')]
 ASSUMPTIONS = ['rs_graph\'s graph builder is modelled as an edge recorder; network_simplex is not executed: in the construction obligations the run stops at its call and the labelled graph is compared with the reference graph; in the decoding obligations it returns an arbitrary (symbolic) feasible circulation with flows <= 2',
                'network value built by netbuild, full level (time-sorted listings by the real Ord from MIR)',
                'cost rates concrete (2,3,5,7,11); the cost_overflow_checker\'s products of two symbolic quantities are abstracted to interval-bounded fresh variables (they only feed overflow warnings)',
@@ -85,8 +85,8 @@ def run_construction(ex, net, allot):
         return r.payload
     raise Unsupported('network_simplex was not reached')
 
-def job_construction(name, tier, ntrips, allot):
-    J = JobCtx(name, CRATES, extra_models=_models(True)); ex = J.ex; ex.abstract_products = True
+def job_construction(name, tier, ntrips, allot, mode='on'):
+    J = JobCtx(name, CRATES, mode=mode, extra_models=_models(True)); ex = J.ex; ex.abstract_products = True
     def body():
         ex.pc_global = []; ex.inputs = {}
         net = NB.build(ex, mk_spec(tier, ntrips))
@@ -157,7 +157,7 @@ def job_construction(name, tier, ntrips, allot):
         J.sample('%d trips, slot allotted=%d: %d split nodes, %d edges; trip order %s' % (ntrips, allot, g.n, nE, order))
     return J.result()
 
-def job_decode(name, tier, ntrips, allot):
+def job_decode(name, tier, ntrips, allot, mode='on'):
     """the decoding loop of solve_for_vehicle_type on an arbitrary feasible circulation (symbolic flows within the real, symbolic bounds)"""
     flows = {}
     def flow_model(ex, g, edges_map):
@@ -170,7 +170,7 @@ def job_decode(name, tier, ntrips, allot):
             ex.assume(sum((fs[i].e for i, (s_, t_) in enumerate(g.edges) if t_ == n), z3.IntVal(0)) == sum((fs[i].e for i, (s_, t_) in enumerate(g.edges) if s_ == n), z3.IntVal(0)))
         flows['f'] = fs; flows['g'] = g
         return some(tup(bv(0, 'i64'), VecVal([Cell(tup(Agg('RsEdge', None, [bv(i, 'u32')]), fs[i])) for i in range(len(fs))])))
-    J = JobCtx(name, CRATES, extra_models=_models(False, flow_model)); ex = J.ex; ex.abstract_products = True
+    J = JobCtx(name, CRATES, mode=mode, extra_models=_models(False, flow_model)); ex = J.ex; ex.abstract_products = True
     def body():
         ex.pc_global = []; ex.inputs = {}; flows.clear()
         net = NB.build(ex, mk_spec(tier, ntrips))
@@ -217,4 +217,6 @@ def job_decode(name, tier, ntrips, allot):
         J.sample('%d trips: decoded tours %s' % (ntrips, T))
     return J.result()
 
-def confirm(c): return False, 'no native scenario (the flow network is private to the solver)'
+def confirm(c):
+    from ..harness import confirm_on_other_flavour
+    return confirm_on_other_flavour('mirsym.obligations.C14', c['job_func'], c.get('job_kwargs', {}), c['clause'])
